@@ -163,3 +163,27 @@ def enum_members(cls_node: ast.ClassDef) -> dict[str, ast.expr]:
             if not st.target.id.startswith("_"):
                 out[st.target.id] = st.value
     return out
+
+
+def self_attr_writes(fi: FuncInfo, _seen: set[str] | None = None) -> set[str]:
+    """Attributes of ``self`` a method may write (stores, augmented stores, mutator calls), through self-calls."""
+    seen = _seen if _seen is not None else set()
+    if fi.qual in seen:
+        return set()
+    seen.add(fi.qual)
+    out: set[str] = set()
+    for st, tgt, _ in stores(fi.node):
+        base = tgt
+        while isinstance(base, ast.Subscript):
+            base = base.value
+        if is_self_attr(base):
+            out.add(base.attr)
+    for c in calls_in(fi.node):
+        f = c.func
+        if isinstance(f, ast.Attribute) and f.attr in MUTATORS and is_self_attr(f.value):
+            out.add(f.value.attr)
+        if isinstance(f, ast.Attribute) and is_self_attr(f, None, ("self",)) and fi.cls is not None:
+            m = fi.cls.find_method(f.attr)
+            if m is not None:
+                out |= self_attr_writes(m, seen)
+    return out
